@@ -301,6 +301,10 @@ def shard_generated(acc, shard, nshards, n_mesh, n_eq, n_sets):
     engine.hyp_run(acc, "sets", check_sets, set_cases(), n_sets, shard)
 
 
+# coverage-guided variants of the structured generators (thorough tier, pv/fuzz/target.py hyp:<name>)
+FUZZ = {"equivariance": ("equivariance", equiv_cases), "sets": ("sets", set_cases)}
+
+
 def run(acc, tier):
     if tier == "quick":
         engine.pmap(acc, shard_perms, extra=(7,))
@@ -311,5 +315,6 @@ def run(acc, tier):
         engine.pmap(acc, shard_perms, extra=(8,))
         engine.pmap(acc, shard_mesh_small, extra=(2,))
         engine.pmap(acc, shard_generated, extra=(3000, 6000, 1000))
+        engine.fuzz(acc, "hyp:equivariance", CHECKS, 3000, max_len=2048)
         sub = "all permutations of length <= 8; all mesh patterns of length <= 2"
     META["extra_cov"] = {"exhaustive_subdomain": sub}
